@@ -48,6 +48,98 @@ theorem isSort_goSortDesc : IsSort OrderBookString.le OrderBookString.goSortDesc
         omega) l
     exact h.imp (fun hab => by simpa [OrderBookString.le] using hab)
 
+/-! ### `HasPriority` is a strict total order on orders with distinct (kind, id) -/
+namespace SortOrders
+
+theorem hasPriority_irrefl (a : Key) : hasPriority a a = false := by
+  cases a with
+  | mk amt p i => cases p <;> simp [hasPriority]
+
+theorem hasPriority_asymm (a b : Key) (h : hasPriority a b = true) : hasPriority b a = false := by
+  cases a with
+  | mk aa ap ai =>
+  cases b with
+  | mk ba bp bi =>
+    simp only [hasPriority] at h ⊢
+    by_cases hab : aa = ba
+    · subst hab
+      cases ap <;> cases bp <;> simp_all <;> omega
+    · have hba : ba ≠ aa := fun e => hab e.symm
+      simp_all
+      omega
+
+/-- trichotomy: two orders with different (kind, id) are never tied -/
+theorem hasPriority_total (a b : Key) (hne : ident a ≠ ident b) : hasPriority a b = true ∨ hasPriority b a = true := by
+  cases a with
+  | mk aa ap ai =>
+  cases b with
+  | mk ba bp bi =>
+    simp only [hasPriority, ident] at hne ⊢
+    by_cases hab : aa = ba
+    · subst hab
+      cases ap <;> cases bp <;> simp_all <;> omega
+    · have hba : ba ≠ aa := fun e => hab e.symm
+      simp_all
+      omega
+
+theorem hasPriority_trans (a b c : Key) (hab : hasPriority a b = true) (hbc : hasPriority b c = true) :
+    hasPriority a c = true := by
+  cases a with
+  | mk aa ap ai =>
+  cases b with
+  | mk ba bp bi =>
+  cases c with
+  | mk ca cp ci =>
+    simp only [hasPriority] at hab hbc ⊢
+    by_cases h1 : aa = ba <;> by_cases h2 : ba = ca <;> by_cases h3 : aa = ca
+    all_goals (try subst h1) <;> (try subst h2) <;> (try subst h3)
+    all_goals cases ap <;> cases bp <;> cases cp <;> simp_all <;> omega
+
+/-- full trichotomy on keys (lexicographic: amount descending, kind, id) -/
+theorem hasPriority_trichotomy (a b : Key) : a = b ∨ hasPriority a b = true ∨ hasPriority b a = true := by
+  by_cases hi : ident a = ident b
+  · by_cases ha : a.amount = b.amount
+    · left
+      cases a; cases b
+      simp only [ident, Prod.mk.injEq] at hi
+      simp_all
+    · right
+      have hb : ¬ b.amount = a.amount := fun e => ha e.symm
+      simp only [hasPriority, ne_eq, ha, hb, not_false_eq_true, if_true, decide_eq_true_eq]
+      omega
+  · right; exact hasPriority_total a b hi
+
+/-- "not after" (the weak order a sort establishes) is transitive -/
+theorem notAfter_trans (a b c : Key) (hab : hasPriority b a = false) (hbc : hasPriority c b = false) :
+    hasPriority c a = false := by
+  cases hca : hasPriority c a
+  · rfl
+  · exfalso
+    rcases hasPriority_trichotomy a b with e | h | h
+    · subst e; rw [hca] at hbc; cases hbc
+    · rcases hasPriority_trichotomy b c with e | h' | h'
+      · subst e; rw [hca] at hab; cases hab
+      · have := hasPriority_trans a b c h h'
+        have := hasPriority_asymm a c this
+        rw [hca] at this; cases this
+      · rw [h'] at hbc; cases hbc
+    · rw [h] at hab; cases hab
+
+end SortOrders
+
+/-- entries with pairwise distinct images under `f` are determined by their image -/
+theorem eq_of_mem_of_nodup_map {α β : Type} (f : α → β) {l : List α} (hd : (l.map f).Nodup) {x y : α}
+    (hx : x ∈ l) (hy : y ∈ l) (h : f x = f y) : x = y := by
+  induction l with
+  | nil => cases hx
+  | cons a as ih =>
+    simp only [List.map_cons, List.nodup_cons, List.mem_map, not_exists, not_and] at hd
+    rcases List.mem_cons.mp hx with rfl | hx' <;> rcases List.mem_cons.mp hy with rfl | hy'
+    · rfl
+    · exact absurd h.symm (hd.1 y hy')
+    · exact absurd h (hd.1 x hx')
+    · exact ih hd.2 hx' hy'
+
 /-! ### checked sum of non-negative decimals -/
 
 def sumSnd : List (Nat × Int) → Int
